@@ -47,7 +47,7 @@ def definitions(rng):
     defs, did = [], 1
     for n_en in range(0, 9):
         # without disabled variants
-        defs.append(IG.shape(rng, did, n_en, [0] * n_en, generics=rng.choice(["none", "ty", "const"]) if n_en else "none"))
+        defs.append(IG.shape(rng, did, n_en, [0] * n_en, generics=rng.choice(["none", "ty", "const", "tydef", "constdef"]) if n_en else "none"))
         did += 1
         # with interleaved disabled ones (first / middle / last / adjacent)
         total = min(12, n_en + rng.choice([1, 2, 3]))
